@@ -189,7 +189,7 @@ fn positional() -> Vec<Vec<u8>> {
     let pair_nolines = "p.A -> a:\n    void p() -> m\n";
     // k leading noise / header / class-only lines before the first class+member pair
     for k in 0..=52usize {
-        for lead in ["garbage\n", "# compiler: R8\n", "p.Z -> z:\n", "\n", "    int f -> g\n"] {
+        for lead in ["garbage\n", "# compiler: R8\n", "p.Z -> z:\n", "\n", "    int f -> g\n", "   \n", "\t\n", "    \n"] {
             for tail in [pair, pair_nolines] {
                 let mut f = lead.repeat(k);
                 f.push_str(tail);
@@ -221,6 +221,20 @@ fn positional() -> Vec<Vec<u8>> {
             v.push(f.into_bytes());
             v.push(nomap.into_bytes());
         }
+    }
+    // header values and original lines outside the main alphabet: min_api values that are almost numbers; methods whose
+    // only line mapping points at original line 0 (R8 writes these for synthesized code)
+    for val in ["21x", "21.5", "0x15", "21 ", " 21", "021", "4294967295", "-1", "", "2 1", "21\t", "1e3", "\u{661}"] {
+        for tail in ["", "# min_api: 7\n", "p.A -> a:\n    void p() -> m\n"] {
+            for head in ["", "# min_api: 9\n"] {
+                v.push(format!("{}# min_api: {}\n{}", head, val, tail).into_bytes());
+                v.push(format!("{}# compiler_version: {}\n# compiler: {}\n{}", head, val, val, tail).into_bytes());
+            }
+        }
+    }
+    for m in ["    1:2:void z():0 -> m\n", "    1:2:void z():0:0 -> m\n", "    1:2:void z():0:5 -> m\n", "    0:65535:void z():0:0 -> m\n", "    1:1:void z():0:0 -> m\n    void y() -> n\n", "    void y() -> n\n    3:4:void z():0 -> m\n"] {
+        v.push(format!("p.A -> a:\n{}", m).into_bytes());
+        v.push(format!("p.A -> a:\n{}p.B -> b:\n    void q() -> q\n", m).into_bytes());
     }
     // the 50-item window behind a class line: the class, then j indented R8 comment lines (error items) and
     // k - j member-less class lines in every arrangement of the comments at the front / middle / end, then the first member
@@ -379,7 +393,7 @@ pub fn run(tier: Tier) -> i32 {
         prop: "C19",
         tier,
         level: "model_checking",
-        rule: format!("every file of <= {} lines over the 15-line alphabet (indented R8 comment, class, field, method with / without usable range, 0:0 method, compiler / compiler_version / min_api headers incl. valueless, non-numeric and 2^32, garbage, blank), each also without its final newline (thorough: also with CRLF); the same files with all lines joined without any terminator (one line less) and with only the first two lines joined (records sharing a physical line); positional families ({} files): k = 0..=52 leading noise / header / class / blank / field lines before the first class+member pair, a class line followed by k lines and then the first member, the first line-mapped method after n in {{0,1,49,50,51,1000,20000}} unmapped ones with error / blank lines interspersed, with and without final newline, headers after everything; a single line-mapped method placed so that it straddles a multiple of 4096 / 65536 / 2^20 at every cut position. few long items (headers of 100..70000 bytes, k = 1..50 of them; one member line with 100..70000 bytes of arguments, valid and invalid as a whole) in front of / inside the first class+member pair; the 50-item window behind a class line filled with 44..54 items of which 0..3 are indented R8 comment lines; the metadata of every section(i..j) of three small files, with and without asking the parent first. Oracle: independent fold over the items of iter(). distinct = distinct metadata tuples", depth, npos),
+        rule: format!("every file of <= {} lines over the 15-line alphabet (indented R8 comment, class, field, method with / without usable range, 0:0 method, compiler / compiler_version / min_api headers incl. valueless, non-numeric and 2^32, garbage, blank), each also without its final newline (thorough: also with CRLF); the same files with all lines joined without any terminator (one line less) and with only the first two lines joined (records sharing a physical line); positional families ({} files): k = 0..=52 leading noise / header / class / blank / whitespace-only / field lines before the first class+member pair, a class line followed by k lines and then the first member, the first line-mapped method after n in {{0,1,49,50,51,1000,20000}} unmapped ones with error / blank lines interspersed, with and without final newline, headers after everything; min_api / compiler values that are almost numbers (21x, 21.5, 0x15, blanks, leading zero, Arabic digit), methods whose only line mapping points at original line 0; a single line-mapped method placed so that it straddles a multiple of 4096 / 65536 / 2^20 at every cut position. few long items (headers of 100..70000 bytes, k = 1..50 of them; one member line with 100..70000 bytes of arguments, valid and invalid as a whole) in front of / inside the first class+member pair; the 50-item window behind a class line filled with 44..54 items of which 0..3 are indented R8 comment lines; the metadata of every section(i..j) of three small files, with and without asking the parent first. Oracle: independent fold over the items of iter(). distinct = distinct metadata tuples", depth, npos),
         bounds: json!({"depth": depth, "alphabet": LINES, "positional_files": npos}),
         assumptions: vec!["the statement defines the answers as functions of the record stream; the stream itself is the subject of C05/C06".into()],
         trusted_base: vec!["rustc/std".into(), "the fold in pgmc/src/props/c19.rs".into()],
